@@ -9,6 +9,7 @@ import (
 	"hash/fnv"
 	"reflect"
 	"regexp"
+	"runtime/debug"
 	"strconv"
 	"strings"
 
@@ -323,6 +324,8 @@ func (a *regAcc) maskArg(f *regFieldDesc, ext bool) reflect.Value {
 func init() {
 	// acc <tid> <path> <nps> <ps..> <psd..> <nf> <name:gi:k:tl2>.. | <steps..>
 	ops["acc"] = func(f []string) string {
+		old := debug.SetMaxStack(32 << 20) // runaway recursion (F7 / F39, not ours) must die quickly
+		defer debug.SetMaxStack(old)
 		t, err := regNavType(f[2])
 		if err != nil {
 			return err.Error()
